@@ -122,6 +122,13 @@ def diff(
     source_copy = source.copy() if copy else source
     target_copy = target.copy() if copy else target
 
+    # Only the hashes cached below are evicted afterwards. A node that was already hashed may have
+    # hashed ancestors outside of these trees, and clearing it would break the invariant that
+    # `Expression.set` relies on (an unhashed node has no hashed ancestor).
+    unhashed_nodes = (
+        [] if copy else [n for n in chain(source_nodes, target_nodes) if n._hash is None]
+    )
+
     try:
         # We cache the hash of each new node here to speed up equality comparisons. If the input
         # trees aren't copied, these hashes will be evicted before returning the edit script.
@@ -141,7 +148,7 @@ def diff(
         )
     finally:
         if not copy:
-            for node in chain(source_nodes, target_nodes):
+            for node in unhashed_nodes:
                 node._hash = None
 
     return edit_script
